@@ -4,18 +4,17 @@ CONSTANTS
   Order <- OrderAB
   ModsOf <- ModsAB
   Params = {"value", "sp"}
-  Values = {1, 2}
+  Values = {1}
   UpErrs = {"hw"}
   Conns = {"c1", "c2"}
   StartDown = {}
   ReqArgs <- OneArg
   ReqConns <- OneConn
+  ReqMods <- ModsB
   WaitSteps = {2, 12}
   ReadErrChoice = {TRUE, FALSE}
   GiveUpErrChoice = {TRUE, FALSE}
-  Depth = 3
+  Depth = 9
   Thin = 1
-CONSTRAINT Bound
-ACTION_CONSTRAINT EmitStep
-VIEW AbstractView
+INVARIANT EmitEnd
 CHECK_DEADLOCK FALSE
